@@ -195,23 +195,41 @@ pub fn eval_doc(doc: &Doc) -> Vec<Failure> {
     };
     let (g, w) = (norm(&got), norm(&want));
     if g != w {
-        let i = g.iter().zip(&w).position(|(a, b)| a != b).unwrap_or(g.len().min(w.len()));
-        let (a, b) = (g.get(i), w.get(i));
-        let kind = match (a, b) {
-            (Some(a), Some(b)) if (a.line, a.start, a.len) == (b.line, b.start, b.len) => {
-                if a.ty != b.ty {
+        // positions of type identifiers that are also names of a local of their procedure
+        let like_local: Vec<(u32, u32)> = doc
+            .sem
+            .occs
+            .iter()
+            .filter(|o| doc.type_use_named_like_local(o))
+            .map(|o| lsptext::position(doc.text(), doc.r.tok_ranges[o.tok].0))
+            .collect();
+        let case = || doc.case(json!({"expected_tokens": want.iter().map(|t| json!([t.line, t.start, t.len, t.ty, t.declaration])).collect::<Vec<_>>()}));
+        let same_geometry = g.len() == w.len() && g.iter().zip(&w).all(|(a, b)| (a.line, a.start, a.len) == (b.line, b.start, b.len));
+        if same_geometry {
+            // one failure per distinct class of difference (no masking by an earlier one)
+            let mut seen: Vec<String> = vec![];
+            for (i, (a, b)) in g.iter().zip(&w).enumerate() {
+                if a == b {
+                    continue;
+                }
+                let mut kind = if a.ty != b.ty {
                     format!("kind:{}-classified-as-{}", b.ty, a.ty)
                 } else {
                     format!("declaration-modifier:{}:{}", b.ty, if b.declaration { "missing" } else { "spurious" })
+                };
+                if b.ty == "type" && like_local.contains(&(b.line, b.start)) {
+                    kind.push_str(":named-like-a-local");
                 }
+                if seen.contains(&kind) {
+                    continue;
+                }
+                seen.push(kind.clone());
+                fails.push(Failure { key: format!("semtok:{}", kind), case: case(), detail: format!("token #{}: got {:?}, expected {:?}", i, a, b) });
             }
-            _ => "token-set".to_string(),
-        };
-        fails.push(Failure {
-            key: format!("semtok:{}", kind),
-            case: doc.case(json!({"expected_tokens": want.iter().map(|t| json!([t.line, t.start, t.len, t.ty, t.declaration])).collect::<Vec<_>>()})),
-            detail: format!("token #{}: got {:?}, expected {:?}", i, a, b),
-        });
+        } else {
+            let i = g.iter().zip(&w).position(|(a, b)| a != b).unwrap_or(g.len().min(w.len()));
+            fails.push(Failure { key: "semtok:token-set".into(), case: case(), detail: format!("token #{}: got {:?}, expected {:?}", i, g.get(i), w.get(i)) });
+        }
     }
     fails
 }
